@@ -316,6 +316,10 @@ def execute(case):
         got = {}
         for e in r.errors:
             k = (e.level, e.code)
+            if k == ('isa', '024') and (e.msg or '').startswith(('My HL count', 'HL parent', 'Your 2400/LX01')):
+                # a reader finding about an HL / LX that stands outside any set: filed on the interchange, still the same finding
+                k = ('seg', 'HL1' if e.msg.startswith('My HL') else ('HL2' if e.msg.startswith('HL parent') else 'LX'))
+                out.probe('full-reader-024')
             if k == ('isa', '024') and (e.msg or '').startswith(('Mandatory ', 'Segment ', 'Loop ')):
                 # a map-walker finding about a segment outside any set (the skeleton's body is not map conformant; an interchange
                 # without a group misses its mandatory GS loop): content, not one of the reader's envelope checks
